@@ -295,7 +295,10 @@ func (vc *VC) computeFrame(env *cenv, k *FuncContract) {
 // frameGoal: variable v in state st agrees with the entry state outside the
 // modifies clause (at every pre-allocated key). "" = nothing to show.
 func (vc *VC) frameGoal(v string, st *State) string {
-	if strings.HasPrefix(v, "$") || strings.HasPrefix(v, "W!") {
+	if strings.HasPrefix(v, "$") || strings.HasPrefix(v, "W!") || v == "Gh!maxAlloc" {
+		// Gh!maxAlloc is a monitor: it records the allocations of the function under
+		// verification (and inlined helpers); callees report theirs only if their
+		// contract lists ghost.maxAlloc
 		return ""
 	}
 	if vc.contract != nil && vc.contract.Flags["libframe"] {
